@@ -226,6 +226,14 @@ func (f *FuncVC) oblige(st *State, kind, src, goal string) *Obligation {
 			}
 		}
 	}
+	if f.con != nil && f.con.Opts["only"] == "panics" && kind != "panic" {
+		// panics-only contract: the only claim is that no explicit panic(...) is
+		// reachable; every other condition (bounds, nil, postconditions,
+		// termination) is NOT claimed here and is assumed
+		f.usedAssumed["panics-only contract for "+f.name()+": only the reachability of its explicit panic(...) statements is checked; run-time safety, termination and its postconditions are assumed"] = true
+		f.assume(st, goal)
+		return nil
+	}
 	if f.con != nil && f.con.Opts["only"] == "frame" {
 		switch kind {
 		case "index", "slice", "nil", "div", "shift", "make", "typeassert", "panic", "decreases":
